@@ -49,12 +49,14 @@ fn emit_flow(flow: &Flow, context: &EmitContext) -> Result<Value, CompilerError>
     let scope = parent_scope.child_flow(flow);
     let mut container = emit_flow_nodes(flow, &scope, context)?;
 
-    prepend_parameters(&mut container, &flow.parameters);
-
+    // A flow without content of its own runs on into its first stitch; the parameter
+    // assignments in front of that are not content.
     if container.content.is_empty() && !flow.children.is_empty() {
         let target = joined_path(&scope.path, &flow.children[0].name);
         container.push(json!({"->": target}));
     }
+
+    prepend_parameters(&mut container, &flow.parameters);
 
     for child in &flow.children {
         container.insert_named(
@@ -74,12 +76,14 @@ fn emit_nested_flow(
     let scope = parent_scope.child_flow(flow);
     let mut container = emit_flow_nodes(flow, &scope, context)?;
 
-    prepend_parameters(&mut container, &flow.parameters);
-
+    // A flow without content of its own runs on into its first stitch; the parameter
+    // assignments in front of that are not content.
     if container.content.is_empty() && !flow.children.is_empty() {
         let target = joined_path(&scope.path, &flow.children[0].name);
         container.push(json!({"->": target}));
     }
+
+    prepend_parameters(&mut container, &flow.parameters);
 
     for child in &flow.children {
         container.insert_named(
